@@ -30,6 +30,7 @@ type memFS struct {
 	// for a failing write: apply this many bytes (capped below len) first
 	failPartial int
 	failed      *opRec
+	failedStep  int // history step that was running when the injected fault hit
 	images      []crashImage
 	capture     bool
 	tornPct     int
@@ -145,6 +146,7 @@ func (fs *memFS) begin(kind, path string, n int) (rec *opRec, fail bool) {
 		rec.Err = true
 		cp := *rec
 		fs.failed = &cp
+		fs.failedStep = fs.curStep
 		return rec, true
 	}
 	return rec, false
